@@ -511,10 +511,8 @@ type ImmExp struct {
 
 func (imm *ImmExp) expressionNode() {}
 
-// EQU 展開の入れ子の深さ (ImmExp.Eval が管理する) とその上限
-var macroExpandDepth int
-
-const maxMacroExpandDepth = 100
+// 展開中の EQU 名 (ImmExp.Eval が管理する)
+var macroExpanding = map[string]bool{}
 
 func (imm *ImmExp) Eval(env Env) (Exp, bool) {
 	switch f := imm.Factor.(type) {
@@ -554,13 +552,15 @@ func (imm *ImmExp) Eval(env Env) (Exp, bool) {
 		// '$' でない場合は、マクロをチェックします
 		macroExp, ok := env.LookupMacro(identValue)
 		if ok {
-			// 自分自身 (または相互) を参照する EQU は無限に展開されてしまう: 深さで打ち切って診断する
-			if macroExpandDepth >= maxMacroExpandDepth {
-				log.Printf("error: EQU '%s' is defined in terms of itself (expansion deeper than %d)", identValue, maxMacroExpandDepth)
+			// 自分自身 (または相互) を参照する EQU は無限に展開されてしまう:
+			// 展開中の名前にもう一度出会ったら打ち切って診断する
+			// (深さの上限だけでは A EQU A+A のような分岐で 2^深さ 回の評価になる)
+			if macroExpanding[identValue] {
+				log.Printf("error: EQU '%s' is defined in terms of itself", identValue)
 				return imm, false
 			}
-			macroExpandDepth++
-			defer func() { macroExpandDepth-- }()
+			macroExpanding[identValue] = true
+			defer delete(macroExpanding, identValue)
 			// マクロ定義を再帰的に評価します
 			// マクロ自体が評価されることを確認します
 			evalMacroExp, reduced := macroExp.Eval(env)
